@@ -1,0 +1,19 @@
+//go:build verif
+
+// Contracts for the verification machinery in /verif (comment-only; excluded from normal builds).
+// Property C08 (dispatch layer only): File never panics, whatever language xlang.DetectLang reports.
+// The formatters behind the dispatch (parser + printer) are assumed not to panic: not decided here.
+
+package format
+
+//@ func readSource
+//@   trusted
+//@ func SourceFile
+//@   trusted
+//@ func _SourceFile_wz
+//@   trusted
+
+//@ func File
+//@   safe
+//@   noframe
+//@   property C08
